@@ -440,6 +440,11 @@ class _ListenerPolicy(FlowPolicy):
     def on_await(self, interp, node, cfg):
         name = call_name(node.value) if isinstance(node.value, ast.Call) else None
         pending = bool(name) and name.split(".")[-1] in ACQUIRE_CALLS
+        anc = getattr(node, "_parent", None)
+        while pending and anc is not None:
+            if isinstance(anc, ast.AsyncWith):
+                pending = False  # the registration is serialised (async with <lock>): nobody completes notify_add meanwhile; the scenario degenerates to the plain case
+            anc = getattr(anc, "_parent", None)
         cfg = super().on_await(interp, node, cfg)
         if pending and self.raced:
             self.raced_applied = True
